@@ -2,6 +2,8 @@
 //   mode 1: accessor shapes after a normal compute(): eigenvectors() must be n x k
 //   mode 2: precondition of the inner SymGEigsSolver constructor at its call site (ncv = min(10, n' - 1) must satisfy nev < ncv <= n')
 //   mode 3: status protocol: info() == Success  ==>  the last convergence test of THIS compute() found every residual column norm below tol * n
+//   mode 5: sanity run (doc example, 100 x 100 without / with B and a diagonal preconditioner): prints status, eigenvalues against a dense reference, residual norms,
+//           ||X'BX - I|| - used to compare the behaviour of a repaired header with the original (always exit 0)
 //   mode 4: (outside the property's quantifier, for the report) rank-deficient initial block: the initial LDLT fails and `BX = BX * sparse_eVecX` multiplies a 0 x 0 matrix
 // exit code 1 + a line starting with REPRODUCED when the real code exhibits the violated obligation, 0 otherwise.
 #include <cstdio>
@@ -154,6 +156,70 @@ static int mode4()
     return 0;
 }
 
+static void sanity_case(const char* what, const SpMat& A, const SpMat* B, const SpMat* T, int k, int maxit, double tol)
+{
+    const int n = int(A.rows());
+    Solver solver(A, make_X(n, k));
+    if (B) solver.setB(*B);
+    if (T) solver.setPreconditioner(*T);
+    try
+    {
+        solver.compute(maxit, tol);
+    }
+    catch (const std::exception& e)
+    {
+        std::printf("%s: n=%d k=%d: compute() threw: %s\n", what, n, k, e.what());
+        return;
+    }
+    Mat Bd = B ? Mat(*B) : Mat(Mat::Identity(n, n));
+    Eigen::GeneralizedSelfAdjointEigenSolver<Mat> ref(Mat(A), Bd);
+    Mat lam = solver.eigenvalues();
+    double dmax = 0;
+    for (int j = 0; j < k && j < lam.size(); j++)
+        dmax = std::max(dmax, std::fabs(double(lam(j) - ref.eigenvalues()(j))));
+    Mat Xd = Mat(solver.X);
+    Mat ev = solver.eigenvectors();
+    std::printf("%s: n=%d k=%d maxit=%d tol=%.0e: info=%d |lambda - dense reference|_max=%.2e max residual column norm=%.2e ||X'BX - I||=%.1e eigenvectors() is %dx%d",
+                what, n, k, maxit, tol, solver.info(), dmax, max_col_norm(solver.residuals()), double((Xd.transpose() * Bd * Xd - Mat::Identity(k, k)).norm()), int(ev.rows()), int(ev.cols()));
+    if (ev.rows() == n && ev.cols() == k)
+        std::printf(" ||A V - B V diag(lambda)||=%.2e", double((Mat(A) * ev - Bd * ev * lam.col(0).asDiagonal()).norm()));
+    std::printf("\n  eigenvalues:");
+    for (int j = 0; j < lam.size(); j++)
+        std::printf(" %.10g", double(lam(j)));
+    std::printf("\n");
+}
+
+static int mode5()
+{
+    // the example of the class documentation: 10 x 10 random sparse symmetric matrix with diagonal i + 0.5, two vectors, compute(10, 1e-4)
+    {
+        const int n = 10;
+        Mat a = Mat::Zero(n, n);
+        for (int i = 0; i < n; i++)
+            for (int j = 0; j < i; j++)
+                if (rnd() > 0.2) { a(i, j) = 0.3 * rnd(); a(j, i) = a(i, j); }
+        for (int i = 0; i < n; i++)
+            a(i, i) = i + 0.5;
+        SpMat A = a.sparseView();
+        sanity_case("doc example", A, 0, 0, 2, 10, 1e-4);
+    }
+    SpMat A = make_A(100, 0.1);
+    sanity_case("100 x 100", A, 0, 0, 5, 100, 1e-8);
+    Mat b = Mat::Zero(100, 100), t = Mat::Zero(100, 100);
+    for (int i = 0; i < 100; i++)
+    {
+        b(i, i) = 2.0 + 0.01 * i;
+        if (i + 1 < 100) { b(i, i + 1) = 0.2; b(i + 1, i) = 0.2; }
+        t(i, i) = 1.0 / (i + 1);
+    }
+    SpMat B = b.sparseView(), T = t.sparseView();
+    sanity_case("100 x 100 with B", A, &B, 0, 3, 100, 1e-8);
+    sanity_case("100 x 100 with B and a diagonal preconditioner", A, &B, &T, 3, 100, 1e-8);
+    sanity_case("100 x 100, k = 1", A, 0, 0, 1, 100, 1e-8);
+    sanity_case("200 x 200, k = 12", make_A(200, 0.1), 0, 0, 12, 100, 1e-8);
+    return 0;
+}
+
 int main(int argc, char** argv)
 {
     const int mode = argc > 1 ? std::atoi(argv[1]) : 1;
@@ -162,6 +228,7 @@ int main(int argc, char** argv)
     else if (mode == 2) hit = mode2();
     else if (mode == 3) hit = mode3();
     else if (mode == 4) hit = mode4();
+    else if (mode == 5) return mode5();
     if (!hit)
         std::printf("not reproduced\n");
     return hit ? 1 : 0;
